@@ -272,6 +272,7 @@ func ResolveAnchors(p *an.Prog) {
 			free[k] = append(free[k], f.Name())
 		}
 		// missing canonical names, in table order, by type key
+		var missing []fieldSpec
 		for _, fs := range ft.fields {
 			if have[fs.name] {
 				continue
@@ -279,6 +280,49 @@ func ResolveAnchors(p *an.Prog) {
 			if l := free[fs.typ]; len(l) > 0 {
 				an.AliasIdent(l[0], fs.name)
 				free[fs.typ] = l[1:]
+				continue
+			}
+			missing = append(missing, fs)
+		}
+		// a group of fields moved into a sub-struct of the owner (a named struct type of the same package held by
+		// value or pointer in one of the owner's fields): look one level down
+		if len(missing) > 0 {
+			for i := 0; i < st.NumFields(); i++ {
+				ft2 := st.Field(i).Type()
+				if pt, ok := ft2.(*types.Pointer); ok {
+					ft2 = pt.Elem()
+				}
+				sub, ok := ft2.(*types.Named)
+				if !ok || sub.Obj().Pkg() == nil || n.Obj().Pkg() == nil || sub.Obj().Pkg().Path() != n.Obj().Pkg().Path() {
+					continue
+				}
+				sst, ok := sub.Underlying().(*types.Struct)
+				if !ok {
+					continue
+				}
+				subFree := map[string][]string{}
+				subHave := map[string]bool{}
+				for j := 0; j < sst.NumFields(); j++ {
+					f := sst.Field(j)
+					subHave[f.Name()] = true
+					if !f.Exported() && !f.Embedded() {
+						k := typeKey(f.Type())
+						subFree[k] = append(subFree[k], f.Name())
+					}
+				}
+				var still []fieldSpec
+				for _, fs := range missing {
+					if subHave[fs.name] {
+						continue
+					}
+					if l := subFree[fs.typ]; len(l) > 0 && fs.typ != "sync.Mutex" && fs.typ != "bool" {
+						an.AliasIdent(l[0], fs.name)
+						subFree[fs.typ] = l[1:]
+						continue
+					}
+					still = append(still, fs)
+				}
+				missing = still
 			}
 		}
 	}
@@ -316,9 +360,29 @@ func ResolveAnchors(p *an.Prog) {
 		})
 	})
 	aliasF("pool", "", "normalizeNodeURI", func() *ssa.Function {
-		return findFn("pool", func(fn *ssa.Function) bool {
+		isNorm := func(fn *ssa.Function) bool {
 			return fn.Signature.Recv() == nil && sigStr(fn) == "(string,string,string,string)(string,error)"
-		})
+		}
+		if fn := findFn("pool", isNorm); fn != nil {
+			return fn
+		}
+		// moved to another package (exported there): the function of that shape connect calls
+		if conn := p.Method("pool", "VipnodePool", "connect"); conn != nil {
+			var cands []*ssa.Function
+			for _, c := range an.Calls(conn, false) {
+				if callee := c.Common().StaticCallee(); callee != nil && p.InRepo(callee) && callee.Parent() == nil && isNorm(callee) {
+					dup := false
+					for _, x := range cands {
+						dup = dup || x == callee
+					}
+					if !dup {
+						cands = append(cands, callee)
+					}
+				}
+			}
+			return uniqueFn(cands)
+		}
+		return nil
 	})
 	aliasF("", "", "runPool", func() *ssa.Function {
 		return findFn("", func(fn *ssa.Function) bool {
